@@ -96,9 +96,10 @@ class ChkIo:
         maybe_chk_section_name_bytes = chk_byte_stream.read(_CHK_SECTION_NAME_NUM_BYTES)
         while maybe_chk_section_name_bytes != b"":
             # u32 Name - A 4-byte string uniquely identifying that chunk's purpose.
+            # section names are raw bytes: keep non UTF-8 names round-trippable
             maybe_chk_section_name = struct.unpack("4s", maybe_chk_section_name_bytes)[
                 0
-            ].decode("utf-8")
+            ].decode("utf-8", errors="surrogateescape")
             # u32 Size - The size, in bytes, of the chunk (not including this header)
             chk_section_size_in_bytes = struct.unpack(
                 "I", chk_byte_stream.read(_CHK_SECTION_TOTAL_BYTES_NUM_BYTES)
